@@ -26,15 +26,18 @@ CHECKS = {
         "assumptions": ["prefix persistence model with torn last write", "an acknowledged Sync/Close makes all earlier writes durable"],
     },
     "C03": {
-        "pkg": "storage", "run": "^TestC03", "level": "fault_enumeration", "overlay": "vfs", "tags": ["verifvfs"],
-        "shards": {"quick": 4, "thorough": 16},
+        "units": [
+            {"pkg": "storage", "run": "^TestC03", "overlay": "vfs", "tags": ["verifvfs"], "shards": {"quick": 4, "thorough": 16}},
+            {"pkg": "conc", "run": "^TestC03RPC", "shards": {"quick": 1, "thorough": 8}},
+        ],
+        "level": "fault_enumeration",
         "technique": "metamorphic property-based test (compaction = identity on the live state) over generated histories x entry points x leftover temp files, plus exhaustive crash-point enumeration over the compaction's recorded file operations",
         "level_text": "Generated histories crossing the engine's compaction thresholds are compacted through every entry point (inline on write/close, load self-heal, "
                       "ForceCompaction, v2.Compactor methods, CompactFromIndex, the CLI's compactSwamp) with generated leftover temp files; live state and swamp name "
                       "must be identical before and after, later writes must reload. Every prefix of the compaction's own file-operation log, torn "
                       "temp writes and 'rename persisted before the temp file's unsynced data' are materialised and must reload to exactly the pre-compaction state.",
-        "level_note": "Prefix persistence model plus the rename-before-fsync hazard; no directory-entry loss. The CompactSwamp RPC reaches the same chronicler.ForceCompaction "
-                      "that is driven directly here. Trusts the vfs shim op log and the harness state model.",
+        "level_note": "Prefix persistence model plus the rename-before-fsync hazard; no directory-entry loss. A second unit drives the CompactSwamp RPC and ordinary API traffic "
+                      "through the in-process gateway (no crash facet there). Trusts the vfs shim op log and the harness state model.",
         "assumptions": ["compaction is the identity on (live key -> value, swamp name)", "prefix persistence + rename-before-fsync hazard"],
     },
     "C25": {
@@ -161,5 +164,35 @@ CHECKS = {
                       "lock; after all watchdogs exited and two GCs the retained heap must grow by less than 16 bytes per key.",
         "level_note": "HeapAlloc noise is assumed far below 1.6 MB; the per-key map size read by reflection is diagnostic only.",
         "assumptions": ["watchdog exit is detected through the goroutine count"],
+    },
+    "C06": {
+        "pkg": "kv", "run": "^TestC06", "level": "exploration",
+        "shards": {"quick": 2, "thorough": 16},
+        "technique": "model-based property-based testing of sequential RPC histories (in-process gateway, documentation-derived map model, watchdog)",
+        "level_text": "Random 1-40-step single-client histories over every non-streaming data RPC run against the real gateway handlers through a wire round trip. Every response, "
+                      "and after each step the full contents and existence of each swamp, must match a documentation-derived key-value model. A call that does not return within "
+                      "10 s, or a recovered panic, is a violation.",
+        "level_note": "Documentation gaps are modelled as allowed sets and counted as classes. Recorded defects are excluded at run time (the trigger depends on state) and kept in witnesses.",
+        "assumptions": ["in-process rig equals server wiring (EngineV2, depth 1 / 1000)", "proto, /repo/docs and SDK comments are the specification"],
+    },
+    "C05": {
+        "pkg": "kv", "run": "^TestC05", "level": "exploration",
+        "shards": {"quick": 2, "thorough": 16},
+        "technique": "round-trip property-based testing (no model): snapshot of all read paths before close vs. after reload",
+        "level_text": "Random write histories over all value kinds (zero-like values forced to >= 25 %), increments, patches, slice ops and deletes on persistent swamps (write interval "
+                      "1 s and 0). Before every close (the function idle eviction and graceful stop call, occasionally a real StopHydra + restart on the same root) six read paths "
+                      "are snapshotted for all keys and must be byte-identical after the reload.",
+        "level_note": "Symmetric read-side conversions are out of reach of a pure round trip; C06 covers them. The real idle-eviction timer is not exercised (C16 does).",
+        "assumptions": ["CloseSwamp equals idle eviction / graceful stop (same function)"],
+    },
+    "C30": {
+        "pkg": "kv", "run": "^TestC30", "level": "exploration",
+        "shards": {"quick": 2, "thorough": 16},
+        "technique": "reference-predicate property-based testing over an expiry state machine (call-interval semantics)",
+        "level_text": "Histories set, slide, clear and reload expiries through Set, Increment metadata and PatchMeta, interleaved with every expiry-aware read and claim path "
+                      "(expired-shift, expired-patch, expiry-ordered reads with windows, shift-matching on the expiration index, expiry filters, Get). All paths must agree with one "
+                      "predicate (expiry != 0 and expiry < now over the call interval) and with the expiry the requests set, before and after reload.",
+        "level_note": "Expiries within 5 s of now are never asserted either way. Client and server share one clock (in-process).",
+        "assumptions": ["expired <=> expiry != 0 and expiry < now"],
     },
 }
